@@ -1295,7 +1295,7 @@ struct TemplateCore {
             const SizeT   loop_size      = loop_set->Size();
             SizeT         loop_index     = 0;
 
-            if (loops_items_->Size() <= tag.Level) {
+            while (loops_items_->Size() <= tag.Level) {
                 *loops_items_ += LoopItem{};
             }
 
